@@ -5,7 +5,12 @@ LEVEL = "proof"
 
 
 def configs(tier):
-    out = [ivp.Cfg("dense", "none", "filter", "ts0", q=1, d=1)]
+    out = []
+    for layout in ("dense", "isotropic", "blockdiag"):
+        for lin in ("ts0", "ts1"):
+            out.append(ivp.Cfg(layout, "none", "filter", lin, q=1, d=1))
+            out.append(ivp.Cfg(layout, "none", "filter", lin, q=2, d=2))
+            out.append(ivp.Cfg(layout, "none", "filter", lin, q=2, d=1, order=2))
     return out
 
 
